@@ -23,7 +23,7 @@ func StdFuncs() map[string]*FuncSpec {
 	// otherwise cty answers the call with an unknown value)
 	anyNull := FuncParam{Type: cty.DynamicPseudoType, AllowNull: true, AllowDynamic: true}
 	anyUnk := FuncParam{Type: cty.DynamicPseudoType, AllowNull: true, AllowUnknown: true, AllowDynamic: true}
-	anyMarked := FuncParam{Type: cty.DynamicPseudoType, AllowMarked: true}
+	anyMarked := FuncParam{Type: cty.DynamicPseudoType, AllowMarked: true, AllowUnknown: true} // (cty answers an unknown argument itself, without the marks, unless the parameter takes unknowns)
 	fs := []*FuncSpec{
 		{Name: "upper", Params: []FuncParam{str},
 			Ret:  func(a []cty.Value) cty.Type { return cty.String },
